@@ -88,6 +88,16 @@ CLAIMED["C07"] = dict(
     technique="jaxpr symbolic execution + polynomial hypotheses + z3 QF_LRA (XL certificates); z3 NRA refutation; float64 replay",
     design="§4 C07")
 
+CLAIMED["C04"] = dict(
+    text="Bounded symbolic model checking of the real calibration code: from an ARBITRARY state one step of solver_mle "
+         "updates the running scale to sqrt((n r^2 + whitened-residual RMS^2)/(n+1)) (per dimension for blockdiag), "
+         "solver_dynamic reports and uses the local estimate, the uncalibrated solver reports one; solve_fixed_grid reports "
+         "running/sqrt(N) (or running) and multiplies unit-scale factors by it; the same step with base scale lambda and "
+         "c*lambda (symbolic c>0) side by side gives equal means, covariances scaled by c^2 resp. equal, and scales divided "
+         "by c; at checkpoints the scale of the right end point is reported and used. z3 QF_LRA on linearised obligations.",
+    technique="jaxpr symbolic execution + polynomial hypotheses + z3 QF_LRA (XL certificates, relational two-run encoding); float64 replay",
+    design="§4 C04")
+
 DIRECT_NOTE = ("Assumes real arithmetic and polynomial inputs with symbolic coefficients up to the stated degree/size. "
                "Trusted base: CPython+JAX tracing (jet/jvp/vmap are JAX's own), the jxs interpreter and polynomial "
                "arithmetic (re-validated every run against the real JAX runtime), z3.")
